@@ -66,10 +66,12 @@ class H1b(Case):
                      "np.exp on symbolic arguments -> atoms identified by syntactic equality of the simplified argument (congruence only)")
     env = {"np_proxy_modules": ("oqupy.tempo",)}
 
-    def __init__(self, N, K, tau, unique, coupling):
-        self.N, self.K, self.tau, self.unique, self.coupling = N, K, tau, unique, coupling
-        self.id = "H1b/%s_N%d_K%s_%s_%s" % (coupling, N, K, "tau" if tau else "notau", "unique" if unique else "full")
-        self.bounds = {"d": 2, "N": N, "dkmax": K, "add_correlation_time": tau, "unique": unique, "coupling": coupling}
+    def __init__(self, N, K, tau, unique, coupling, layout="C"):
+        self.N, self.K, self.tau, self.unique, self.coupling, self.layout = N, K, tau, unique, coupling, layout
+        self.id = "H1b/%s_N%d_K%s_%s_%s%s" % (coupling, N, K, "tau" if tau else "notau", "unique" if unique else "full",
+                                              "" if layout == "C" else "_layout" + layout)
+        self.bounds = {"d": 2, "N": N, "dkmax": K, "add_correlation_time": tau, "unique": unique, "coupling": coupling,
+                       "initial_state_layout": layout}
         self.timeout_s = 600
 
     def run(self, inp):
@@ -81,6 +83,8 @@ class H1b(Case):
         P1 = [lib.tp_prop(inp, "p%d" % k, d) for k in range(N)]
         P2 = [lib.tp_prop(inp, "q%d" % k, d) for k in range(N)]
         rho0 = inp.arr("r", (d, d))
+        if self.layout == "F":         # column-major copy of the same matrix: both methods must read it as the same state
+            rho0 = np.asfortranarray(rho0)
         t0 = 1.5                       # non-zero start time (exact in binary)
         sys_a, sys_b = lib.FakeSystem(d, P1, P2), lib.FakeSystem(d, P1, P2)
         times, ts, _ = ph.tempo_states(bath, params, sys_a, rho0, N, start_time=t0, unique=self.unique)
@@ -139,6 +143,7 @@ def cases(tier):
     for unique in (False, True):
         cs += [H1b(3, 1, True, unique, "sz"), H1b(3, None, False, unique, "sz"), H1b(2, 1, False, unique, "id"),
                H1b(2, 1, False, unique, "syz")]
+    cs += [H1b(2, 1, False, False, "sz", layout="F"), H1b(2, None, False, True, "syz", layout="F")]
     cs += [H2(3, 2, None), H2(3, 2, 1, True), H2(4, 2, 1), H2(4, 3, 2)]
     if tier == "thorough":
         # (N=5 does not finish within the per-case limits: z3 returns unknown on the step-5 identity;
